@@ -11,7 +11,7 @@ FN = {"k*x": lambda k, x: k * x, "x*k": lambda k, x: x * k, "x/k": lambda k, x: 
 
 def main(tier):
     import numpy
-    from barril.units import Array, FixedArray, Scalar, UnitDatabase
+    from barril.units import Array, FixedArray, ObtainQuantity, Scalar, UnitDatabase
 
     rep = common.Report("C09", tier)
     bd = common.build_dir("C09")
@@ -24,6 +24,8 @@ def main(tier):
     n = 0
     try:
         def mkscalar(qsel, v):
+            if qsel == "captioned":
+                return Scalar(ObtainQuantity("<unknown>", None, "Gamma API"), v)
             if qsel == "pure":
                 return Scalar(v, "-")
             if qsel == "simple":
@@ -37,6 +39,8 @@ def main(tier):
             if kind == "intarray":
                 cont = numpy.array([int(v) for v in vs])
             one = {"list": [1.0] * len(vs), "tuple": (1.0,) * len(vs), "ndarray": numpy.ones(len(vs)), "intarray": numpy.ones(len(vs))}[kind]
+            if qsel == "captioned":
+                return Array(ObtainQuantity("<unknown>", None, "Gamma API"), cont)
             if qsel == "pure":
                 return Array(cont, "-")
             if qsel == "simple":
@@ -59,6 +63,8 @@ def main(tier):
             want_q = [[e["c"], e["u"], e["e"]] for e in row["rq"]]
             if ents != want_q:
                 diffs.append("composing map predicted %r observed %r" % (want_q, ents))
+            if row["qsel"] == "captioned" and row["op"] not in ("k/x", "k//x") and res.GetQuantity().GetUnknownCaption() != "Gamma API":
+                diffs.append("the result does not keep x's quantity: caption %r instead of 'Gamma API'" % res.GetQuantity().GetUnknownCaption())
             vals = [res.GetAbstractValue()] if cls == "Scalar" else list(res.GetAbstractValue())
             if len(vals) != len(want_vals) or any(abs(float(a) - b) > 1e-9 * max(1.0, abs(b)) for a, b in zip(vals, want_vals)):
                 diffs.append("values predicted %r observed %r" % (want_vals, [float(a) for a in vals]))
